@@ -1,4 +1,4 @@
-import CoapVerif.Lemmas.SessionsTimeout
+import CoapVerif.Lemmas.SessionsClient
 /-
 C12 — sessions map 1:1 to peers, live while referenced; everything is released.
 
@@ -714,6 +714,57 @@ theorem client_session_survives_pass {st : St} (h : Reachable st) (now : Nat) (t
   exact ⟨hk, (hI'.S.evLive t.sid (List.mem_map.mpr ⟨t, hk, rfl⟩)).2.1⟩
 
 
+/-! ### round R12d: "a CLIENT-type session that sits in a table is referenced" as a GLOBAL invariant -/
+
+/-- The invariant is inductive for ANY state that satisfies it together with `Inv` (not only reachable ones), over
+every event: the formulation that works is over the WHOLE `coap_session_release_lkd` (`St.releaseHolder` = `--ref` + the
+free test), the release/reference pair of coap_add_observer's token replacement, releases on sessions that are not client
+sessions, and coap_session_disconnected_lkd under D17 — the raw `--ref` (`St.dropHolder`) alone breaks it (example
+below), which is why it does not fit `Closed`. -/
+theorem client_invariant_step {st : St} (hI : Inv st) (hC : CInv st) (e : Event) :
+    Inv (st.step e).1 ∧ CInv (st.step e).1 :=
+  let j := J.step ⟨hI, hC⟩ e
+  ⟨j.I, j.C⟩
+
+/-- In EVERY reachable state — after any history of datagrams, stream traffic, observations, notifications, Resets, ACKs,
+async entries, Confirmables, call home, releases in any order, I/O passes, disconnects, teardown — every session of
+`type == COAP_SESSION_TYPE_CLIENT` that sits in an endpoint's table has `ref ≥ 1`, at least one holder object points at
+it, and it is a datagram session.  (What the oracle checked after every event since round R12c.) -/
+theorem client_session_in_table_is_referenced {st : St} (h : Reachable st) :
+    ∀ s ∈ st.sessions, s.client = true → 1 ≤ s.ref ∧ 1 ≤ st.holds s.sid ∧ s.peer.reliable = false := by
+  obtain ⟨eps, nres, es, rfl⟩ := h
+  intro s hs hc
+  have j := J.run eps nres es
+  have h1 := j.C s hs hc
+  exact ⟨h1.1, by rw [← j.I.H.ref s hs]; exact h1.1, h1.2⟩
+
+/-- Corollary: between events an unreferenced session is a SERVER session, so the `type == COAP_SESSION_TYPE_SERVER`
+conjunct of the idle test (eviction scan of coap_endpoint_get_session, reclamation test of coap_io_prepare_io_lkd) only
+matters in the middle of an event: `idle` is `ref == 0 && delayqueue == NULL`. -/
+theorem unreferenced_session_is_server_session {st : St} (h : Reachable st) (s : Sess) (hs : s ∈ st.sessions)
+    (hr : s.ref = 0) : s.client = false ∧ s.idle = (s.ref == 0 && s.delayq == 0) := by
+  have hc : s.client = false := by
+    cases hc : s.client with
+    | false => rfl
+    | true => have := (client_session_in_table_is_referenced h s hs hc).1; omega
+  exact ⟨hc, by simp [Sess.idle, hc]⟩
+
+
+/-- Round R12d, client sessions PROPER (`coap_new_client_session` on the same context, lifetime slice): the call creates
+ONE new session object (ledger `alloc`, owned by the context) and touches nothing of the endpoints' tables — the sessions,
+the peer ⇀ session map (`lookup`, so `peer_session_functional_injective` stays a statement about the sessions born on
+endpoints and the client session is OUTSIDE that map), the holders and the SERVER_SESSION_NEW/DEL event log are unchanged.
+All theorems above are statements over `Reachable`, i.e. over histories that MIX these calls with everything else;
+`teardown_ledger_empty` then says that `coap_free_context` with such sessions still referenced by the application frees
+every one of them exactly once (after fix a610d3d). -/
+theorem own_client_session_outside_peer_map (st : St) (hf : st.freed = false) (k : Nat) :
+    (st.step (.ownClient k)).1.sessions = st.sessions ∧ (st.step (.ownClient k)).1.events = st.events ∧
+    (st.step (.ownClient k)).1.holders = st.holders ∧ (∀ p, (st.step (.ownClient k)).1.lookup p = st.lookup p) ∧
+    (st.step (.ownClient k)).1.ledger = st.ledger ++ [.alloc st.next] ∧
+    (st.step (.ownClient k)).1.ctxObjs = st.ctxObjs ++ [st.next] ∧ (st.step (.ownClient k)).1.nown = st.nown + 1 := by
+  simp [St.step, hf, St.newOwned, St.lookup]
+
+
 /-! ### non-vacuity: concrete histories -/
 
 def pA : Peer := ⟨1, 0, 1⟩
@@ -967,6 +1018,22 @@ example : let st := st0.run [.rx pA .plain, .callHome pA, .advance 400000, .io, 
 /-- the hypotheses of `release_frees_only_unreferenced_client_sessions` / `client_session_survives_pass` / `call_home_takes_one_reference` -/
 example : let st := st0.run [.rx pA .plain, .appRef pA, .appRelease pA]
     st.sessions.map (fun s => (s.ref, s.client)) = [(0, false)] ∧ (st.clientFree 8).sessions = st.sessions := by decide
+
+/-- the raw `--ref` breaks the invariant, the whole coap_session_release_lkd keeps it (why `CInv` is not `Closed`);
+    the hypotheses of `client_invariant_step` / `unreferenced_session_is_server_session` are satisfiable -/
+example : let st := st0.run [.rx pA (.obsReg 0 0 0), .callHome pA, .endCallHome pA]
+    st.sessions.map (fun s => (s.ref, s.client)) = [(1, true)] ∧
+    (st.holders.map fun x => (st.dropHolder x).sessions.map (fun s => (s.ref, s.client))) = [[(0, true)]] ∧
+    (st.holders.map fun x => (st.releaseHolder x).sessions.map (fun s => (s.ref, s.client))) = [[]] := by decide
+example : let st := st0.run [.rx pA .plain, .rx pB (.obsReg 0 0 0), .callHome pB]
+    st.sessions.map (fun s => (s.ref, s.client)) = [(0, false), (2, true)] := by decide
+
+/-- client sessions proper mixed with server sessions: no events, outside the tables, freed by the teardown (also when the
+    application still holds them, and next to a server session it still references) -/
+example : let st := st0.run [.rx pA .plain, .ownClient 1, .appRef pA, .ownClient 0, .callHome pB, .rx pB .plain, .ownClient 2]
+    st.events = [.new 8, .new 11] ∧ st.sessions.map (·.sid) = [8, 11] ∧ st.nown = 3 ∧ st.freed = false ∧
+    ledgerOk st.ledger = false ∧ ledgerOk (st.step .freeContext).1.ledger = true ∧
+    (st.step .freeContext).1.events = [.new 8, .new 11, .del 8, .del 11] := by decide
 
 /-- the monitor rejects a double free, a free of something unallocated and a leak -/
 example : ledgerOk [.alloc 1, .free 1, .free 1] = false ∧ ledgerOk [.free 7] = false ∧ ledgerOk [.alloc 1] = false ∧
